@@ -40,6 +40,7 @@ const (
 	opRestartNoDir = 11
 	opHold         = 12 // plant an empty FIFO under the name, Restart: the feeder blocks in open(2) when it loads it
 	opRelease      = 13 // open the FIFO for writing: the feeder goes on (and finds a zero-length chunk)
+	opProbe        = 14 // the consumer polls the window and finds it empty (an observation, no call into the buffer)
 )
 
 type bufOp struct{ Code, A, B, C int64 }
@@ -97,6 +98,8 @@ type c03World struct {
 	curFeeder   int
 
 	staleObs []int64 // successor of a killed process: the observables of the dead process until the next start
+	blockedSig string // signature of "a recovered chunk is stuck behind an empty window"
+	emptySig string // signature of the "empty chunk offered" oracle failure (c03:... / c04:... in the victim process)
 	ownRoot bool
 	faults  bool // write scripts beyond open/rename failures are available (victim process: RLIMIT_FSIZE, kill points)
 
@@ -132,7 +135,7 @@ func newC03World(pool [][]byte) *c03World {
 func newC03WorldAt(root string, pool [][]byte) *c03World {
 	c03Init()
 	w := &c03World{root: root, qdir: filepath.Join(root, "q"), pool: pool, ever: map[string]bool{},
-		deadFeeders: map[int]bool{}, seenF: map[string]bool{}, fpc: 'x'}
+		deadFeeders: map[int]bool{}, seenF: map[string]bool{}, fpc: 'x', emptySig: "c03:empty-chunk-offered", blockedSig: "c03:recovery-blocked"}
 	os.Mkdir(w.qdir, 0o755)
 	w.dirsize = c03DirSize(root)
 	return w
@@ -282,6 +285,11 @@ func c03FeederStates() []c03FeederState {
 			where = 'p'
 		case (strings.HasPrefix(st, "semacquire") || strings.HasPrefix(st, "sync.WaitGroup.Wait")) && strings.Contains(g, "TrackedWaitGroup).Wait"):
 			where = 'a'
+		case strings.HasPrefix(st, "chan receive") && strings.Contains(g, "saveEverything"):
+			// waiting in "range inputChannel" of saveEverything on a queue that has not been closed: the feeder has
+			// left its main loop without a Destroy.  Cannot happen in the code as it is; it is a resting state all
+			// the same (until Destroy closes the queue), reported as 's' - the model never rests there
+			where = 's'
 		}
 		inRead := strings.HasPrefix(st, "syscall") && strings.Contains(g, "util.ReadFileAt")
 		out = append(out, c03FeederState{id, where, inRead})
@@ -360,6 +368,34 @@ func (w *c03World) doHold(name string, Q, M int, maxb int64) bool {
 	}
 	w.held = name
 	return w.doRestart(Q, M, maxb, true)
+}
+
+// doProbe: the consumer looks into the window and finds nothing.  With a registered consumer, before Destroy,
+// an empty window at quiescence means the feeder has nothing left: every recovered chunk whose file was a
+// non-empty regular file must have been received by now - otherwise something blocks the chunks behind it.
+func (w *c03World) doProbe() bool {
+	if w.held != "" {
+		return false
+	}
+	if _, win, _ := w.peek(); win != 0 {
+		return false
+	}
+	g := w.cur
+	if g == nil || !w.up || w.closed || w.cons == 0 || w.fpc == 'z' {
+		return true
+	}
+	got := map[string]bool{}
+	for _, t := range g.Taken {
+		got[t.ID] = true
+	}
+	for _, id := range g.Recovered {
+		if b := g.DirAtStart[id]; b != nil && len(b) > 0 && !got[id] {
+			w.fail(w.blockedSig, fmt.Sprintf("generation %d: the window is empty and stays empty, but the recovered chunk %s (%d bytes, readable) has not been delivered (recovered: %v, delivered: %v)",
+				len(w.gens), id, len(b), g.Recovered, c03IDs(g.Taken)))
+			break
+		}
+	}
+	return true
 }
 
 func (w *c03World) doRelease() bool {
@@ -812,6 +848,8 @@ func (w *c03World) exec(op bufOp) bool {
 		return w.doHold(string(w.poolGet(op.A)), int(op.B/1000), int(op.B%1000), op.C)
 	case opRelease:
 		return w.doRelease()
+	case opProbe:
+		return w.doProbe()
 	case opRestart:
 		return w.doRestart(int(op.A), int(op.B), op.C, true)
 	case opRestartNoDir:
